@@ -78,7 +78,17 @@ def _os_posix_fallocate(fd, offset, length):
         fs.mutated('truncate', f.name, offset + length)
 
 
+def _os_fstat(fd):
+    fs = _active_fs()
+    f = fs._fds.get(fd) if fs is not None else None
+    if f is None:
+        return _real_os.fstat(fd)
+    f._flush()
+    return _types.SimpleNamespace(st_size=len(f._node), st_mode=0o100644)
+
+
 sim_os = _SimOSModule('os')
+sim_os.fstat = _os_fstat
 sim_os.posix_fallocate = _os_posix_fallocate
 sim_os.path = _SimOSPath('os.path')
 sim_os.path.getsize = _path_getsize
